@@ -550,6 +550,96 @@ def prepare(case):
                     f'o_query {wm} [TBalance; TFlagAndEmpty] {clist(scanned)}]')
             add(kind, q, [[bool(row[0])] + [canon_inv(v) for v in row[1:]] for row in r], expr,
                 ['andempty', A_SC], sel=sel[0], alone=alone)
+        elif kind == 'subagg':
+            # aggregates over same-typed columns of a subquery table; first()/last() next to sum() on one column
+            one = 10 ** B_SC
+            selrows = [(n, p.account) for n, (e, p) in zip(names, rows) if sel[3](e, p)]
+            order = group_firstseen([a for _, a in selrows])
+            gl = [clist([n for n, a in selrows if a == acc]) for acc in order]
+            variant = item[2] % 3
+            if variant == 0:
+                inner = sql('account, units(position) AS u, cost(position) AS c', sel)
+                q = f'SELECT account, sum(u), sum(c), sum(u) FROM ({inner}) GROUP BY account'
+                mrows = [[f'sum_amt (map get_units {g})', f'sum_amt (map (get_cost {one}) {g})',
+                          f'sum_amt (map get_units {g})'] for g in gl]
+                scales, keys, nkey = [A_SC, A_SC + B_SC, A_SC], [repr(a) for a in order], 1
+            elif variant == 1:
+                inner = sql('account, sum(position) AS a, sum(cost(position)) AS b', sel, group='account')
+                q = f'SELECT sum(a), sum(b), first(b), last(a), first(a) FROM ({inner})'
+                ga = [f'(sum_pos {g})' for g in gl]
+                gb = [f'(sum_amt (map (get_cost {one}) {g}))' for g in gl]
+                mrows = [[f'sum_inv {clist(ga)}', f'sum_inv {clist(gb)}', gb[0], ga[-1], ga[0]]] if gl else []
+                scales, keys, nkey = [A_SC, A_SC + B_SC, A_SC + B_SC, A_SC, A_SC], None, 0
+            else:
+                inner = sql('account, sum(position) AS inv', sel, group='account')
+                q = f'SELECT first(inv), sum(inv), last(inv), sum(units(inv)), units(sum(inv)), first(inv) FROM ({inner})'
+                ga = [f'(sum_pos {g})' for g in gl]
+                mrows = [[ga[0], f'sum_inv {clist(ga)}', ga[-1], f'sum_inv (map inventory_units {clist(ga)})',
+                          f'inventory_units (sum_inv {clist(ga)})', ga[0]]] if gl else []
+                scales, keys, nkey = [A_SC] * 6, None, 0
+            r = execute(q)
+            im = {'keys': [repr(row[0]) for row in r] if nkey else None,
+                  'rows': [[canon_inv(v) for v in row[nkey:]] for row in r]}
+            add(kind, q, im, 'OL ' + clist(['OL ' + clist([f'o_inv ({x})' for x in mr]) for mr in mrows]),
+                ['invrows', scales], sel=sel[0], keys=keys)
+        elif kind == 'balagg':
+            # aggregates over the balance column: first()/last() next to sum() on the same inventory objects
+            q = sql('first(balance), sum(balance), last(balance), sum(units(balance)), first(balance)', sel)
+            r = execute(q)
+            S2 = clist(sel_names(sel))
+            expr = (f'let PS := prefix_sums [] {S2} in OL (match PS with [] => [] | _ => [OL [o_inv (hd [] PS); '
+                    f'o_inv (sum_inv PS); o_inv (last PS []); o_inv (sum_inv (map inventory_units PS)); o_inv (hd [] PS)]] end)')
+            add(kind, q, {'keys': None, 'rows': [[canon_inv(v) for v in row] for row in r]}, expr,
+                ['invrows', [A_SC] * 5], sel=sel[0], keys=None)
+        elif kind == 'usertable':
+            # a persistent user table with an Inventory column, every query executed twice; inputs must stay unchanged
+            from beancount.core import inventory as binv
+            from beancount.core import data as bdata
+            trows, mrows_, gk = [], [], []
+            if item[2] % 2 == 0:
+                for n, (e, p) in zip(names, rows):
+                    inv = binv.Inventory()
+                    inv.add_position(p)
+                    trows.append((p.account, inv))
+                    mrows_.append(f'(sum_pos [{n}])')
+                    gk.append(p.account)
+            else:
+                byentry = {}
+                for n, (e, p) in zip(names, rows):
+                    byentry.setdefault(id(e), (e, []))[1].append((n, p))
+                for e, ps in byentry.values():
+                    inv = binv.Inventory()
+                    for _, p in ps:
+                        inv.add_position(p)
+                    trows.append((e.narration, inv))
+                    mrows_.append(f'(sum_pos {clist([n for n, _ in ps])})')
+                    gk.append(e.narration)
+            table = impl.make_table('lots', [('g', str), ('inv', binv.Inventory)], trows)
+            for cn in conns:
+                cn.tables['lots'] = table
+            before = [canon_inv(inv) for _, inv in trows]
+            order = group_firstseen(gk)
+            q1 = 'SELECT g, sum(inv), units(sum(inv)), sum(units(inv)), first(inv) FROM #lots GROUP BY g'
+            q2 = 'SELECT first(inv), sum(inv), last(inv), first(inv) FROM #lots'
+            runs = []
+            for q in (q1, q2, q1, q2):
+                r = execute(q)
+                nk = 1 if q is q1 else 0
+                runs.append({'keys': [repr(row[0]) for row in r] if nk else None,
+                             'rows': [[canon_inv(v) for v in row[nk:]] for row in r]})
+            after = [canon_inv(inv) for _, inv in trows]
+            m1 = []
+            for g in order:
+                gi = clist([m for m, k in zip(mrows_, gk) if k == g])
+                first = [m for m, k in zip(mrows_, gk) if k == g][0]
+                m1.append([f'sum_inv {gi}', f'inventory_units (sum_inv {gi})', f'sum_inv (map inventory_units {gi})', first])
+            allr = clist(mrows_)
+            m2 = [[mrows_[0], f'sum_inv {allr}', mrows_[-1], mrows_[0]]] if mrows_ else []
+            expr = 'OL [' + '; '.join('OL ' + clist(['OL ' + clist([f'o_inv ({x})' for x in mr]) for mr in mm])
+                                      for mm in (m1, m2)) + ']'
+            add(kind, q1 + ' ; ' + q2 + ' (each executed twice)', {'runs': runs, 'mutated': [i for i, (b, a) in enumerate(zip(before, after)) if a != b],
+                                                               'before': before, 'after': after},
+                expr, ['usertable', A_SC], sel='all', keys=[repr(g) for g in order], nrows=len(trows))
         elif kind == 'journal':
             # JOURNAL is sugar for SELECT date, flag, ..., account, f(position), f(balance) WHERE account ~ pattern
             pat = ['Broker', 'Bank', 'Assets', 'Expenses|Income', ''][item[3] % 5]
@@ -623,7 +713,7 @@ def gen_plan(rng, tier):
     nsel = 12
     k = 11 if tier == 'quick' else 20
     kinds = ['sum', 'units', 'cost', 'value', 'convert', 'convert', 'group', 'balance', 'balance', 'balance', 'balance',
-             'lastbal', 'firstbal', 'andempty', 'sumprice', 'journal', 'balances']
+             'lastbal', 'firstbal', 'andempty', 'sumprice', 'journal', 'balances', 'subagg', 'subagg', 'balagg', 'usertable']
     for _ in range(k):
         kind = rng.choice(kinds)
         s = rng.randrange(nsel) if rng.random() < 0.75 else 0
@@ -687,6 +777,25 @@ def compare(check, mx, cur, lab):
                 if tot == 'no-row' or as_map(im[-1][i]) != as_map(tot):
                     probs.append(('last-balance-conservation',
                                   f'last balance {im[-1][i]} != sum(position) of the same selection {tot}'))
+    elif dec[0] == 'invrows':
+        m = [[decode_inv(x, sc, cur, lab) for x, sc in zip(r, dec[1])] for r in mx]
+        if check['keys'] is not None and im['keys'] != check['keys']:
+            probs.append((check['kind'], f'group keys {im["keys"]} != expected first-seen order {check["keys"]}'))
+        elif im['rows'] != m:
+            probs.append((check['kind'], f'aggregates {im["rows"]} != model {m}'))
+    elif dec[0] == 'usertable':
+        m1 = [[decode_inv(x, dec[1], cur, lab) for x in r] for r in mx[0]]
+        m2 = [[decode_inv(x, dec[1], cur, lab) for x in r] for r in mx[1]]
+        for i, (run, m) in enumerate(zip(im['runs'], [m1, m2, m1, m2])):
+            ex = 'first' if i < 2 else 'second'
+            if run['keys'] is not None and run['keys'] != check['keys']:
+                probs.append(('usertable', f'{ex} execution: group keys {run["keys"]} != {check["keys"]}'))
+            elif run['rows'] != m:
+                probs.append(('usertable', f'{ex} execution over the persistent table: aggregates {run["rows"]} != model {m}'))
+        if im['mutated']:
+            i = im['mutated'][0]
+            probs.append(('input-mutated', f'the query changed its input: inventory of table row {i} was {im["before"][i]}, '
+                                           f'is {im["after"][i]} after the queries'))
     elif dec[0] == 'balances':
         m = [[a, decode_inv(x, dec[1], cur, lab)] for a, x in zip(check['accounts'], mx)]
         if im != m:
@@ -1017,7 +1126,11 @@ def run(tier, rng):
                 'subqueries scanning postings with balance between two references, the same as FROM-subquery, WHERE not '
                 'consulting balance (12 selections incl. FROM filters) and 8 WHERE shapes consulting it (short-circuit AND/OR/NOT); '
                 'last(balance)/first(balance) GROUP BY account; `flag AND empty(balance)`; JOURNAL [pattern] [AT units|cost] and '
-                'BALANCES [AT units|cost] [FROM] [WHERE]; 1 in 4 ledgers alternate two connections; '
+                'BALANCES [AT units|cost] [FROM] [WHERE]; aggregates over subquery tables: sum(u), sum(c) over two Amount columns, '
+                'sum(a), sum(b), first(b), last(a) and first(inv), sum(inv), last(inv), sum(units(inv)), units(sum(inv)) over '
+                'Inventory columns holding group sums; first/sum/last(balance) in one query; a persistent user table with an '
+                'Inventory column (one row per posting or per transaction) queried twice, grouped and ungrouped, with the '
+                'input inventories checked unchanged afterwards; 1 in 4 ledgers alternate two connections; '
                 'plus random add_position/add_inventory sequences on beancount Inventory directly. '
                 'non-trivial = distinct (query, ledger) with >= 2 postings',
         'samples': samples,
